@@ -116,6 +116,8 @@ function deepmergeConstructor(options: any) {
           value === null ||
           value instanceof RegExp ||
           value instanceof Date ||
+          value instanceof Map ||
+          value instanceof Set ||
           ArrayBuffer.isView(value) ||
           // @ts-ignore
           value instanceof Buffer
@@ -124,6 +126,8 @@ function deepmergeConstructor(options: any) {
           value === null ||
           value instanceof RegExp ||
           value instanceof Date ||
+          value instanceof Map ||
+          value instanceof Set ||
           ArrayBuffer.isView(value);
 
   const mergeArray =
